@@ -8,7 +8,11 @@ SOURCES = {
     call(TCYCLE + "::len"), call(TCYCLE + "::iter"), call(TCYCLE + "::get_vec"),
     field(TCYCLE, "cycle"), field(TRANSITION, "cycles"), field(TRANSITION, "empty_cycles"),
 }
-POSITION = call("core::iter::traits::iterator::Iterator::position")
+POSITION_DECL = "core::iter::traits::iterator::Iterator::position"
+
+
+def has_position(at):
+    return ("call:" + POSITION_DECL) in at or ("decl:" + POSITION_DECL) in at
 UNWRAPS = ("core::option::Option::unwrap", "core::option::Option::expect")
 INDEX = "<alloc::vec::Vec as core::ops::index::Index>::index"
 PUSH = "alloc::vec::Vec::push"
@@ -69,7 +73,7 @@ def guard_of(an, key, ins, lhs_locals):
             continue
         if c.callee in UNWRAPS:
             at = data_atoms(an, key, fd.operand_uses(c.args[0]))
-            if POSITION in at and at & SOURCES:
+            if has_position(at) and at & SOURCES:
                 return "position(..).unwrap() on the same collection at %s proves it non-empty" % c.line()
         if c.callee == INDEX:
             at = data_atoms(an, key, fd.operand_uses(c.args[0]))
@@ -95,7 +99,7 @@ def sites(an, crates=("solution", "solver")):
                 fd = fd or an.fd(key)
                 seeds = fd.operand_uses(ins.args[0])
                 at = data_atoms(an, key, seeds)
-                if at & SOURCES and (at & LEN_CALLS or POSITION in at):
+                if at & SOURCES and (at & LEN_CALLS or has_position(at)):
                     c = ins.args[1].const_val() if len(ins.args) > 1 else None
                     out.append((key, ins, "sub", c, "%s cannot underflow" % ins.callee.split("::")[-1]))
                 continue
@@ -121,7 +125,7 @@ def sites(an, crates=("solution", "solver")):
             at = data_atoms(an, key, seeds)
             if not (at & SOURCES):
                 continue
-            if kind == "sub" and not (at & LEN_CALLS) and POSITION not in at:
+            if kind == "sub" and not (at & LEN_CALLS) and not has_position(at):
                 continue
             c = other.const_val() if kind == "sub" else None
             g = guard_of(an, key, ins, seeds)
